@@ -144,6 +144,12 @@ inductive Step where
   | combineValues (c : Comb) | combineValuesLifted (c : Comb)
   | combineGlobally (c : Comb) (fo : Option Nat) | combineGloballyLifted (c : Comb) (fo : Option Nat)
   | distinct | distinctPerKey | topKPerKey (k : Nat)
+  /-- `map_with_side` / `filter_with_side` (helpers/side_inputs.rs): a `map` / `filter` whose closure also reads a side vector -/
+  | mapSide (side : List Int) | filterSide (side : List Int)
+  /-- `try_map` (helpers/try_process.rs): a `map` to `Result<V, String>`; `unresult` maps the result back to a plain value -/
+  | tryMap | unresult
+  /-- debug taps (testing/debug.rs): identity operators with the trait-default flags -/
+  | debugInspect | debugCount | debugSample (n : Nat)
   | join (k : JoinKind) (rsrc : List Val) (rsteps : List Step)
 
 def unkeyF (r : Val) : Val := r                          -- `(k, v)` ↦ `P(k, v)`: the same `Val`
@@ -152,6 +158,14 @@ def topairF (x : Val) : Val := match x with | .pair a b => .pair a b | v => .pai
 def ungroupF (r : Val) : List Val := r.value.toList.map (fun v => .pair r.key v)
 def glenF (r : Val) : Val := .pair r.key (.int r.value.toList.length)
 def gsumF (r : Val) : Val := .pair r.key (.int ((r.value.toList.map toInt).foldl (· + ·) 0))
+
+def sideSum (side : List Int) : Int := side.foldl (· + ·) 0
+def mapSideF (side : List Int) (x : Val) : Val := .int (x.toInt + sideSum side)
+def filterSideF (side : List Int) (x : Val) : Bool := side.contains (x.toInt % 5)
+/-- `Ok(x)` for even `x`, `Err("odd")` otherwise; a `Result` travels as `("ok", v)` / `("err", msg)` -/
+def tryF (x : Val) : Val := if x.toInt % 2 == 0 then .pair (.str "ok") x else .pair (.str "err") (.str "odd")
+/-- a debug tap passes its partition through unchanged -/
+def debugOp : DynOp Part := withFlags Generated.bareOpFlags (List.map (fun x => x))
 
 /-- does the harness insert a typed conversion `map` after this combiner (`u64`/`Vec<V>` → `V`)? -/
 def Comb.globalNeedsConv : Comb → Bool
@@ -196,6 +210,13 @@ def Step.apply (acc : List (Node Part)) : Step → List (Node Part)
   | .distinctPerKey =>
       acc ++ [gbkNode, combineValuesLiftedNode Comb.distinctSet.toCombiner, st (flatMapOp ungroupF)]
   | .topKPerKey k => acc ++ [combineValuesNode (Comb.topK k).toCombiner]
+  | .mapSide side => acc ++ [st (mapOp (mapSideF side))]
+  | .filterSide side => acc ++ [st (filterOp (filterSideF side))]
+  | .tryMap => acc ++ [st (mapOp tryF)]
+  | .unresult => acc ++ [st (mapOp (fun x => x))]
+  | .debugInspect => acc ++ [st debugOp]
+  | .debugCount => acc ++ [st debugOp]
+  | .debugSample _ => acc ++ [st debugOp]
   | .join k rsrc rsteps =>
       -- `chain_from` snapshots both lineages literally; the outer chain restarts at a dummy source;
       -- the harness then maps the joined rows `(k, (v, w))` back to `(V, V)` rows
